@@ -126,7 +126,20 @@ def write_if_changed(path, content):
 # ----------------------------------------------------------------------------
 # Coq
 
+def gen_coqproject():
+    files = []
+    for d in ("Base", "Generated", "Model", "Proofs", "Properties"):
+        for root, _, fs in os.walk(os.path.join(COQ, d)):
+            for fn in sorted(fs):
+                if fn.endswith(".v"):
+                    files.append(os.path.relpath(os.path.join(root, fn), COQ))
+    txt = ("-Q . C2PA\n-arg -w -arg -notation-overridden,-deprecated-hint-without-locality,-deprecated-instance-without-locality\n"
+           + "\n".join(sorted(files)) + "\n")
+    write_if_changed(os.path.join(COQ, "_CoqProject"), txt)
+
+
 def coq_makefile():
+    gen_coqproject()
     if not os.path.exists(os.path.join(COQ, "Makefile")) or \
             os.path.getmtime(os.path.join(COQ, "Makefile")) < os.path.getmtime(os.path.join(COQ, "_CoqProject")):
         sh("coq_makefile -f _CoqProject -o Makefile", cwd=COQ, check=True)
@@ -402,9 +415,15 @@ def run_harness(prop, cases, release=False, timeout=1800, jobs=16, env=None):
 
 def load_known():
     p = os.path.join(VERIF, "known_findings.json")
-    if not os.path.exists(p):
-        return []
-    return json.load(open(p)).get("findings", [])
+    out = []
+    if os.path.exists(p):
+        out += json.load(open(p)).get("findings", [])
+    d = os.path.join(VERIF, "known_findings.d")
+    if os.path.isdir(d):
+        for fn in sorted(os.listdir(d)):
+            if fn.endswith(".json"):
+                out += json.load(open(os.path.join(d, fn))).get("findings", [])
+    return out
 
 
 class Ctx:
